@@ -37,7 +37,7 @@ func applyAll(sm *storage.VerifPartitionSM, log []*smx.Entry, from int) (outs []
 func TestC04(t *testing.T) {
 	rec := mon.Open("C04")
 	defer rec.Finish(t)
-	n := rec.N(300, 20000)
+	n := rec.N(600, 20000)
 	for c := 0; c < n; c++ {
 		if rec.Mine(c) {
 			runLog(rec, c, false)
